@@ -394,17 +394,8 @@ func c04Scenarios(tier mc.Tier) []mc.Scenario {
 			for n := 1; n <= 3; n++ {
 				for _, wt := range []bool{false, true} {
 					for _, entry := range []string{"validate", "checkstatus"} {
-						if tier == mc.Quick {
-							// quick keeps the full grid for <=2 URLs and a reduced grid for 3 URLs
-							if serial == "medium" && (ik != "p256-a" || entry != "validate") {
-								continue
-							}
-							if n == 3 && (serial != "short" || ik != "p256-a") {
-								continue
-							}
-						}
 						s := &c04Scenario{issuerKey: ik, serial: serial, nURL: n, withTime: wt, entry: entry}
-						s.free = n <= 2 || tier == mc.Thorough
+						s.free = n <= 2 || tier == mc.Thorough // quick: 3 URLs with <= 2 deviations from "transport error", on the whole scenario grid
 						s.bound = 2
 						if s.free {
 							s.bound = -1
